@@ -271,7 +271,11 @@ func (e *Engine) builtin(st *state, fr *frame, in ssa.CallInstruction, name stri
 		}
 		return one(st, &Val{Op: "call", Name: "append", Args: []*Val{args[0], a1}, Type: rt})
 	case "copy":
-		if !e.overlayCopy(st, args[0], args[1]) {
+		if base, lo, hi, total, ok := byteArraySegment(args[0]); ok && hi > lo {
+			// the head of a field of a record laid out in a local array: src cut to the field's width, the rest of the
+			// field as it was (zero) until a fill loop says otherwise
+			stageSeg(st, base, lo, total, &Val{Op: "padded", Aux: hi - lo, Args: []*Val{e.contentOf(st, args[1]), nil}, Type: args[0].Type}, args[0].Type)
+		} else if !e.overlayCopy(st, args[0], args[1]) {
 			e.setContent(st, args[0], e.contentOf(st, args[1]))
 		}
 		return one(st, &Val{Op: "call", Name: "copy", Args: args, Type: rt})
@@ -991,6 +995,103 @@ func (e *Engine) model(st *state, fr *frame, in ssa.CallInstruction, fn *ssa.Fun
 				e.addEvent(st, fr, &Event{Kind: EvRep, LoopID: sr.ID, Count: sr.Args[2], Bounded: "bulk", Iter: []*Arm{{Events: []*Event{inner}, Next: map[string]*Val{}}}}, in)
 				return one(st, tuple(mkLen(src), mkNil(errT))), true
 			}
+		}
+		// a record laid out in a local array (numbers, single bytes, padded texts) and written at once
+		if stg := stripCT(src); stg != nil && stg.Op == "staged" {
+			// single bytes stored into the array (`rec[31] = r.Side`) are segments of the record too
+			base := stripCT(args[1])
+			for base != nil && base.Op == "slice" {
+				base = stripCT(base.Args[0])
+			}
+			if total, okT := stg.Aux.(int); okT && base != nil && base.Op == "alloc" {
+				covered := make([]bool, total)
+				for _, sg := range stg.Args {
+					w := 0
+					switch sg.Op {
+					case "padded":
+						w = sg.Aux.(int)
+					case "intbytes":
+						sz, _ := fixedSize(sg.Type)
+						w = int(sz)
+					}
+					for k := sg.ID; k < sg.ID+w && k < total; k++ {
+						if k >= 0 {
+							covered[k] = true
+						}
+					}
+				}
+				ns := &Val{Op: "staged", Aux: total, Type: stg.Type, Args: append([]*Val(nil), stg.Args...)}
+				for k := 0; k < total; k++ {
+					if covered[k] {
+						continue
+					}
+					ia := &Val{Op: "index", Args: []*Val{base, mkInt(int64(k))}}
+					if me, has := st.mem[ia.Key()]; has {
+						ns.Args = append(ns.Args, &Val{Op: "intbytes", Name: "", ID: k, Args: []*Val{me.V}, Type: types.Typ[types.Uint8]})
+					}
+				}
+				stg = ns
+			}
+			hasText := false
+			for _, sg := range stg.Args {
+				if sg.Op == "padded" {
+					hasText = true
+				}
+			}
+			if segs := stagedBlock(stg); hasText && segs != nil {
+				total := int64(0)
+				for _, sg := range segs {
+					if sg.Op != "padded" {
+						sz, _ := fixedSize(sg.Type)
+						total += sz
+						ord := sg.Name
+						if sz == 1 {
+							ord = ""
+						}
+						e.addEvent(st, fr, &Event{Kind: EvWriteInt, Buf: args[0], IntType: sg.Type, Order: ord, Src: sg.Args[0], Size: mkInt(sz)}, in)
+						continue
+					}
+					w := int64(sg.Aux.(int))
+					total += w
+					text, pad := sg.Args[0], sg.Args[1]
+					tl := mkLen(text)
+					cond := mkBinop(token.GTR, tl, mkInt(w), types.Typ[types.Bool])
+					mk := func(src, size *Val) *Event {
+						return &Event{ID: e.id(), Kind: EvWriteBytes, Buf: args[0], Src: src, Size: size, Fn: fr.fn, Site: fr.site, Instr: in, Pos: in.Pos(), NCond: len(st.conds)}
+					}
+					cut := mk(&Val{Op: "slice", Args: []*Val{text, nil, mkInt(w), nil}, Type: text.Type}, mkInt(w))
+					rest := affToVal(affConst(w).Add(affOf(tl), -1))
+					whole := mk(text, tl)
+					fill := mk(&Val{Op: "call", Name: "bytes.Repeat", Args: []*Val{{Op: "arraylit", Args: []*Val{pad}}, rest}, Type: sg.Type}, rest)
+					alt := &Event{Kind: EvAlt, Iter: []*Arm{
+						{Conds: []Cond{{V: cond, Taken: true, Pos: in.Pos(), Fn: fr.fn}}, Events: []*Event{cut}},
+						{Conds: []Cond{{V: cond, Taken: false, Pos: in.Pos(), Fn: fr.fn}}, Events: []*Event{whole, fill}},
+					}}
+					e.addEvent(st, fr, alt, in)
+				}
+				return one(st, tuple(mkInt(total), mkNil(errT))), true
+			}
+		}
+		// numbers and texts assembled in one slice (a length prefix appended, then the text's bytes) and written at once:
+		// the same atoms as writing them one after the other
+		if segs := stagedSegments(src); segs != nil {
+			var total *Affine = affConst(0)
+			for _, sg := range segs {
+				if sg.Op == "textseg" {
+					tl := mkLen(sg.Args[0])
+					e.addEvent(st, fr, &Event{Kind: EvWriteBytes, Buf: args[0], Src: sg.Args[0], Size: tl}, in)
+					total = total.Add(affOf(tl), 1)
+					continue
+				}
+				sz, _ := fixedSize(sg.Type)
+				total = total.Add(affConst(sz), 1)
+				ord := sg.Name
+				if sz == 1 {
+					ord = ""
+				}
+				e.addEvent(st, fr, &Event{Kind: EvWriteInt, Buf: args[0], IntType: sg.Type, Order: ord, Src: sg.Args[0], Size: mkInt(sz)}, in)
+			}
+			return one(st, tuple(affToVal(total), mkNil(errT))), true
 		}
 		// a number staged by hand: PutUintN into a local array, or AppendUintN(nil, v)
 		if ibs := stagedInts(src); ibs != nil {
@@ -1747,6 +1848,99 @@ func stagedInts(src *Val) []*Val {
 	return nil
 }
 
+// stagedBlock: the segments of a record staged in a local byte array, in order, when they tile it completely: numbers
+// and single bytes (intbytes), texts cut or padded to their field (padded, with the pad byte known), and number-sized
+// runs of untouched (zero) bytes. nil otherwise.
+func stagedBlock(stg *Val) []*Val {
+	total, ok := stg.Aux.(int)
+	if !ok {
+		return nil
+	}
+	segs := append([]*Val(nil), stg.Args...)
+	sort.Slice(segs, func(i, j int) bool { return segs[i].ID < segs[j].ID })
+	var out []*Val
+	off := 0
+	gap := func(n int) bool {
+		it := map[int]types.Type{1: types.Typ[types.Uint8], 2: types.Typ[types.Uint16], 4: types.Typ[types.Uint32], 8: types.Typ[types.Uint64]}[n]
+		if it == nil {
+			return false
+		}
+		out = append(out, &Val{Op: "intbytes", Name: "zero", ID: off, Args: []*Val{mkConst(constant.MakeInt64(0), it)}, Type: it})
+		return true
+	}
+	for _, sg := range segs {
+		if sg.ID < off {
+			return nil
+		}
+		if sg.ID > off && !gap(sg.ID-off) {
+			return nil
+		}
+		var w int
+		switch sg.Op {
+		case "padded":
+			if len(sg.Args) != 2 || sg.Args[1] == nil {
+				return nil // the rest of the field was never filled
+			}
+			w = sg.Aux.(int)
+		case "intbytes":
+			sz, _ := fixedSize(sg.Type)
+			w = int(sz)
+		default:
+			return nil
+		}
+		out = append(out, sg)
+		off = sg.ID + w
+	}
+	if off > total || (off < total && !gap(total-off)) {
+		return nil
+	}
+	return out
+}
+
+// stagedSegments: src is a slice assembled from numbers and at least one text: append(<numbers or empty>, text...),
+// possibly continued with more numbers or texts. Segments are intbytes values and textseg(content) values, in order.
+// nil when src is not of that shape (numbers alone are stagedInts' business).
+func stagedSegments(src *Val) []*Val {
+	var rec func(v *Val, depth int) ([]*Val, bool)
+	rec = func(v *Val, depth int) ([]*Val, bool) {
+		v = stripCT(v)
+		if v == nil || depth > 12 {
+			return nil, false
+		}
+		if v.IsNilConst() || v.Op == "availbuf" || (v.Op == "makeslice" && len(v.Args) > 0 && isZero(v.Args[0])) {
+			return []*Val{}, true
+		}
+		if ints := stagedInts(v); ints != nil {
+			return ints, true
+		}
+		if v.Op == "call" && v.Name == "append" && len(v.Args) == 2 {
+			x := stripCT(v.Args[1])
+			if x != nil && x.Op != "arraylit" && x.Type != nil && isStringOrBytes(x.Type) && !x.Contains(func(y *Val) bool { return y.Op == "availbuf" || y.Op == "bufbytes" }) {
+				pre, ok := rec(v.Args[0], depth+1)
+				if !ok {
+					return nil, false
+				}
+				return append(append([]*Val(nil), pre...), &Val{Op: "textseg", Args: []*Val{v.Args[1]}, Type: x.Type}), true
+			}
+		}
+		return nil, false
+	}
+	segs, ok := rec(src, 0)
+	if !ok {
+		return nil
+	}
+	hasText := false
+	for _, sg := range segs {
+		if sg.Op == "textseg" {
+			hasText = true
+		}
+	}
+	if !hasText {
+		return nil
+	}
+	return segs
+}
+
 func isZero(v *Val) bool {
 	n, ok := v.Int64()
 	return ok && n == 0
@@ -1767,6 +1961,45 @@ func mutatesSliceArg(name string) bool {
 		return true
 	}
 	return false
+}
+
+// stageSeg records that the bytes [off, off+width) of the local byte array base hold seg (a number, a single byte or a
+// padded text); a segment staged earlier at the same offset is replaced.
+func stageSeg(st *state, base *Val, off, total int, seg *Val, t types.Type) {
+	seg.ID = off
+	old := stripCT(st.content[base.Key()])
+	stg := &Val{Op: "staged", Aux: total, Type: t}
+	if old != nil && old.Op == "staged" {
+		for _, o := range old.Args {
+			if o.ID != off {
+				stg.Args = append(stg.Args, o)
+			}
+		}
+	} else if old != nil && old.Op == "intbytes" {
+		if old.ID != off {
+			stg.Args = append(stg.Args, old)
+		}
+	}
+	stg.Args = append(stg.Args, seg)
+	st.content[base.Key()] = stg
+}
+
+// byteArraySegment: sl is arr[lo:hi] over a local [N]byte array with constant bounds.
+func byteArraySegment(sl *Val) (base *Val, lo, hi, total int, ok bool) {
+	b, off, tot, ok1 := arraySegment(sl, 0)
+	if !ok1 {
+		return nil, 0, 0, 0, false
+	}
+	arr := b.Type.(*types.Pointer).Elem().Underlying().(*types.Array)
+	if eb, isB := arr.Elem().Underlying().(*types.Basic); !isB || eb.Kind() != types.Uint8 {
+		return nil, 0, 0, 0, false
+	}
+	h := tot
+	if x := stripCT(sl); x.Args[2] != nil {
+		v, _ := x.Args[2].Int64()
+		h = int(v)
+	}
+	return b, off, h, tot, true
 }
 
 // arraySegment: sl is arr[lo:hi] (or arr[:]) over a local fixed-size array with constant bounds spanning exactly width bytes.
